@@ -37,10 +37,10 @@ func Wins(a, b SVer) bool {
 }
 
 type MirrorDBI struct {
-	Kind    string // plain | int4 | int8
-	HasMain bool   // application DBI exists
-	Main    map[string][]byte
-	Shadow  map[string]SVer
+	Kind      string // plain | int4 | int8
+	HasMain   bool   // application DBI exists
+	Main      map[string][]byte
+	Shadow    map[string]SVer
 	HasShadow bool
 }
 
